@@ -20,7 +20,9 @@ type RenderContext struct {
 	env                *Environment
 	context            map[string]interface{}
 	blocks             map[string][]Node
-	parentBlocks       map[string][]Node // Original block content from parent templates
+	parentBlocks       map[string][]Node   // Original block content from parent templates
+	blockChain         map[string][][]Node // Definitions of each block along the extends chain, most derived first
+	blockLevel         int                 // Position in blockChain of the definition being rendered (for parent())
 	macros             map[string]Node
 	parent             *RenderContext
 	engine             *Engine    // Reference to engine for loading templates
@@ -110,6 +112,8 @@ func NewRenderContext(env *Environment, context map[string]interface{}, engine *
 	ctx.engine = engine
 	ctx.extending = false
 	ctx.currentBlock = nil
+	ctx.blockChain = nil
+	ctx.blockLevel = 0
 	ctx.parent = nil
 	ctx.inParentCall = false
 	ctx.sandboxed = false
@@ -130,6 +134,7 @@ func (ctx *RenderContext) Release() {
 	ctx.env = nil
 	ctx.engine = nil
 	ctx.currentBlock = nil
+	ctx.blockChain = nil
 
 	// Save the maps so we can return them to their respective pools
 	contextMap := ctx.context
@@ -305,7 +310,19 @@ func (ctx *RenderContext) visibleVariables() map[string]interface{} {
 // forgetBlocks empties the block tables a cloned context inherited. An included
 // template is rendered on its own: the including template's blocks must neither
 // override the blocks of the included template nor of a layout it extends.
+// addBlockDefinition appends a definition of the named block to the inheritance
+// chain. Templates are processed from the most derived one down to the base
+// layout, so the chain is ordered most derived first.
+func (ctx *RenderContext) addBlockDefinition(name string, body []Node) {
+	if ctx.blockChain == nil {
+		ctx.blockChain = make(map[string][][]Node)
+	}
+	ctx.blockChain[name] = append(ctx.blockChain[name], body)
+}
+
 func (ctx *RenderContext) forgetBlocks() {
+	ctx.blockChain = nil
+	ctx.blockLevel = 0
 	for k := range ctx.blocks {
 		delete(ctx.blocks, k)
 	}
@@ -360,6 +377,8 @@ func (ctx *RenderContext) Clone() *RenderContext {
 	newCtx.engine = ctx.engine
 	newCtx.extending = false
 	newCtx.currentBlock = nil
+	newCtx.blockChain = nil
+	newCtx.blockLevel = 0
 	newCtx.parent = ctx
 	newCtx.inParentCall = false
 
